@@ -11,7 +11,12 @@ def srcsOfLens (lens : List Nat) : List (List Nat) := lens.map List.range
 
 def multiGenD (op : String) (args : List Nat) : Option String :=
   match op with
-  | "mgdet" => some <| match runP (do let s ← pNat; let lens ← pNats; pure (s, lens)) args with
+  -- mgdetb / mgwb: some lines of the sources are unparseable (runs given as (source, start, length) triples); the
+  -- generator yields them as `Err` items, and an item is an item whatever it carries: the model does not look at them
+  | "mgdet" | "mgdetb" => some <| match runP (do
+        let s ← pNat; let lens ← pNats
+        if op == "mgdetb" then (do let _ ← pList (do let a ← pNat; let b ← pNat; let c ← pNat; pure (a, b, c)); pure ()) else pure ()
+        pure (s, lens)) args with
       | some (s, lens) => match strategyOf s with
         | some .weighted => reject
         | some st =>
@@ -20,7 +25,10 @@ def multiGenD (op : String) (args : List Nat) : Option String :=
           ok (eList (fun (x, k) => [x, k]) out)
         | none => reject
       | none => reject
-  | "mgw" => some <| match runP (do let lens ← pNats; let _seed ← pNat; let tags ← pNats; pure (lens, tags)) args with
+  | "mgw" | "mgwb" => some <| match runP (do
+        let lens ← pNats; let _seed ← pNat; let tags ← pNats
+        if op == "mgwb" then (do let _ ← pList (do let a ← pNat; let b ← pNat; let c ← pNat; pure (a, b, c)); pure ()) else pure ()
+        pure (lens, tags)) args with
       | some (lens, tags) =>
         if lens.isEmpty || lens.any (· == 0) then "err zero-length" else
         match replayTags (srcsOfLens lens) tags with
